@@ -2,6 +2,8 @@
 
 package pipeline
 
+import "strings"
+
 // C02 case generators (shared by the pipeline and globalfilter harnesses).
 // Every random choice comes from the harness PRNG passed in.
 
@@ -56,6 +58,32 @@ func (g *vfC02G) spec(maxNodes int) VfC02Spec {
 			decls = []VfC02Decl{}
 		case 5:
 			decls[g.r.Intn(nd)].Kind = ""
+		}
+	}
+	// near-miss spellings of a REGISTERED kind (letter case, blanks, prefix,
+	// extension): only the exact registered name is a kind
+	kindP := 20
+	if g.adv {
+		kindP = 4
+	}
+	if len(decls) > 0 && g.chance(1, kindP) {
+		d := &decls[g.r.Intn(len(decls))]
+		base := g.pick("VfC02KA", "VfC02KB", "VfC02KC")
+		switch g.r.Intn(7) {
+		case 0:
+			d.Kind = strings.ToLower(base)
+		case 1:
+			d.Kind = strings.ToUpper(base)
+		case 2:
+			d.Kind = "vf" + base[2:]
+		case 3:
+			d.Kind = base[:6] + strings.ToLower(base[6:])
+		case 4:
+			d.Kind = base + " "
+		case 5:
+			d.Kind = base[:6]
+		default:
+			d.Kind = base + "A"
 		}
 	}
 	kindOf := map[string]string{}
@@ -123,6 +151,11 @@ func (g *vfC02G) spec(maxNodes int) VfC02Spec {
 			continue
 		}
 		results := VfC02KindResults[kindOf[nd.Filter]]
+		for kn, rs := range VfC02KindResults { // a mis-cased kind gets the jumpIf keys of the kind it resembles
+			if kn != kindOf[nd.Filter] && strings.EqualFold(strings.TrimSpace(kindOf[nd.Filter]), kn) {
+				results = rs
+			}
+		}
 		if _, ok := kindOf[nd.Filter]; !ok {
 			results = []string{"r1"}
 		}
